@@ -87,6 +87,12 @@ def _noisy(p, se):
     return M
 
 
+def _qsmall(p):
+    """unit quaternion of the small rotation p['close'] about p['axis']"""
+    h = 0.5 * p["close"]
+    return np.r_[math.cos(h), math.sin(h) * refs.unit(p["axis"])]
+
+
 def _close_to(p, se):
     """a pose whose rotation differs from X by the small angle p['close'] about p['axis']"""
     T = refs.pose3_of(p["X"])
@@ -176,6 +182,14 @@ ENTRIES = {
                                (L.UnitQuaternion(refs.pose3_of(p["X"])[:3, :3].copy()).interp(p["s"], L.UnitQuaternion(_close_to(p, False))), "q"),
                                (L.SO3(refs.rodrigues(p["axis"], p["close"])).interp(p["s"]), "SO3"),
                                (L.UnitQuaternion(refs.rodrigues(p["axis"], p["close"])).interp(p["s"]), "q")],
+    # nearly opposite quaternions (the same or nearly the same rotation written with the other sign; a rotation just short of a
+    # full turn): the blend weights are ill-conditioned there, whatever comes back must still be of unit length
+    "interp/antipodal": lambda p: (_maybe(lambda: L.UnitQuaternion([float(x) for x in refs.q_of(p["X"]["rot"])]).interp(
+                                       p["s"], L.UnitQuaternion([float(-x) for x in refs.qmul(refs.q_of(p["X"]["rot"]), _qsmall(p))])), "q")
+                                   + _maybe(lambda: L.UnitQuaternion([float(x) for x in refs.q_of(p["X"]["rot"])]).interp(
+                                       p["s"], L.UnitQuaternion([float(-x) for x in refs.qmul(refs.q_of(p["X"]["rot"]), _qsmall(p))]), shortest=True), "q")
+                                   + _maybe(lambda: L.UnitQuaternion([float(-x) for x in _qsmall(p)]).interp(p["s"]), "q")
+                                   + _maybe(lambda: B().slerp(refs.q_of(p["X"]["rot"]), -refs.qmul(refs.q_of(p["X"]["rot"]), _qsmall(p)), p["s"]), "q")),
     "slerp": lambda p: [(B().slerp(refs.q_of(p["X"]["rot"]), refs.q_of(p["Y"]["rot"]), p["s"], True), "q")],
     "rand": lambda p: (_seed(p), [(B().rand(), "q"), (B().q2r(B().rand()), "SO3")])[1],
     "transl": lambda p: [(B().transl(V(p, p["t"])), "SE3"), (B().transl(*p["t"]), "SE3")],
